@@ -93,15 +93,23 @@ CHECKS = [
           "number multiplies / divides the SI value; the product / quotient of two quantities whose class pair has an entry in the "
           "conversion table is a new object of exactly the class the table prescribes, in its base unit, with SI value = product / "
           "quotient of the SI values (ZeroDivisionError exactly for a zero divisor) -- together with TInv this is the dimensional "
-          "soundness of named results. Pairs WITHOUT a table entry (generic SI result: SI arithmetic on signature lists, asSI, "
-          "as_quantity) and the SI string round trip are not verified symbolically: BOUNDED stand-ins run the real * and / on all "
-          "41x41 ordered class pairs (value, signature, named-vs-generic result), check that operands are not modified and results "
-          "do not alias, and print/parse every signature of a bounded set in all formats; labelled bounded, not counted.",
+          "soundness of named results. Pairs WITHOUT a table entry give a generic SI value whose SI value is the product / quotient "
+          "and whose signature is the elementwise sum / difference of the operands' class signatures (fall-back branches of "
+          "Quantity.__mul__/__truediv__ over Quantity.asSI and SI.__mul__/__truediv__; `list(map(lambda x, y: x + y, ...))` executed "
+          "as an elementwise sequence operation); SI.__new__/__init__/_val and SI.as_quantity -- TypeError for a class that is not a "
+          "quantity class, ValueError exactly when the signatures differ, otherwise a new object of the requested class with the same "
+          "SI value -- are verified as well. NOT verified: the unit-string parser / printer (SI.str_to_sisig, siunit: abstract "
+          "contracts); a BOUNDED round-trip sweep prints and parses every signature of a bounded set in all formats. Further BOUNDED "
+          "stand-ins: the real * and / on all 41x41 ordered class pairs; operands are not modified and results do not alias "
+          "(sequences are values in the model, so the signature list that SI._val shares by design is invisible to the proof).",
   "design_ref": "DESIGN.md section 6 C16",
   "category": "proof",
-  "note": COMMON_NOTE + " Generic-SI products / quotients: bounded (1681 pairs x 1 value pair + operand-reuse sweep). Quantity "
-          "construction is by the verified contracts of __new__ / __init__ (see C17); the conversion tables are uninterpreted maps constrained by 'entries are quantity classes' (checked by TInv).",
-  "technique": "ground obligations over the live conversion tables (exhaustive evaluation); deductive verification of refusal / same-type / scaling clauses for a generic receiver; bounded native stand-ins for Quantity x Quantity and SI strings"},
+  "note": COMMON_NOTE + " Quantity construction is by the verified contracts of __new__ / __init__ (see C17). Conversion tables and "
+          "class signatures are uninterpreted functions of the class id constrained only by facts that the exhaustive TInv / UInv "
+          "ground obligations establish on the same tree (entries are quantity classes, signatures have nine exponents, base unit "
+          "factor 1). Quantity.sisig() (classmethod over _sidict) is interpreted as the class signature; its body is covered by TInv. "
+          "The generic base class Quantity itself is never an operand (precondition). float.__new__ is assumed.",
+  "technique": "ground obligations over the live conversion tables (exhaustive evaluation); deductive verification of refusal / same-type / scaling / product / quotient / conversion clauses for a generic receiver class; bounded native stand-ins for unit strings, aliasing and a cross-check of all class pairs"},
  {"property_id": "C17",
   "text": "Quantity._val/__add__/__sub__/__neg__/__abs__/__eq__/__ne__/__lt__/__le__/__gt__/__ge__/as_unit/si and scaling by a plain "
           "number (* and /) are verified ONCE for a receiver of any of the 41 quantity classes (generic receiver; the methods are "
